@@ -95,9 +95,9 @@ pub fn run(prop: &str, tier: Tier, seed: u64, replay: Option<&str>) -> i32
             fuzz_target: Some("sys17"),
             prop: "C17",
             engine: &engine,
-            quick_cases: 60_000,
+            quick_cases: 200_000,
             thorough_cases: 2_000_000,
-            rule: "cases = histories of calls over three fn systems and the entry points syscall / named_syscall / register_named_system + named_syscall_direct / spawn_system + spawned_syscall / Commands::syscall / Commands::spawned_syscall, with nested calls and calls issued from queued commands, decoded from proptest byte strings; non-trivial = >= 2 keys used and >= 1 nested or command-issued call; distinct = distinct case hashes".into(),
+            rule: "cases = histories of calls over three fn systems and the entry points syscall / named_syscall / register_named_system + named_syscall_direct / spawn_system + spawned_syscall / Commands::syscall / Commands::spawned_syscall / World::syscall_once / Commands::syscall_once / spawn_rc_system (+ signal drop and collection) / Commands::insert_system / IdMappedSystems::revoke, with nested calls and calls issued from queued commands, decoded from proptest byte strings; non-trivial = >= 2 keys used and >= 1 nested or command-issued call; distinct = distinct case hashes".into(),
             assumptions: vec![
                 "re-entering a running syscall / named_syscall key is never generated (documented: state does not persist)".into(),
                 "register_named_system replaces the stored system, so the key's state starts fresh".into(),
@@ -130,7 +130,7 @@ pub fn run(prop: &str, tier: Tier, seed: u64, replay: Option<&str>) -> i32
             fuzz_target: Some("wr16"),
             prop: "C16",
             engine: &engine,
-            quick_cases: 40_000,
+            quick_cases: 200_000,
             thorough_cases: 1_500_000,
             rule: "cases = histories of add / remove (full and partial) / run / trigger / despawn operations over two WorldReactors with dynamic bundles, one with starting triggers and three EntityWorldReactors with local data, decoded from proptest byte strings; non-trivial = >= 2 entities added to entity reactors and >= 1 partial removal; distinct = distinct case hashes".into(),
             assumptions: vec![
